@@ -6,9 +6,9 @@ Import ListNotations.
 
 (* Without --delete no destination entry lacking a source counterpart is removed or altered --
    whatever else happens in the run (errors included) *)
-Theorem C06_no_delete_no_loss : forall refuse c now U src dst q x,
+Theorem C06_no_delete_no_loss : forall refuse ds c now U src dst q x,
   c_delete c = false -> ~ In q (paths_of src) -> dst q = Some x ->
-  r_fs (run refuse c now U src dst) q = Some x.
+  r_fs (run refuse ds c now U src dst) q = Some x.
 Proof. exact no_delete_no_loss. Qed.
 Print Assumptions C06_no_delete_no_loss.
 
@@ -34,25 +34,42 @@ Proof. intros src listing e He Hc. apply C06_plan_exact in Hc. destruct Hc as [_
 Print Assumptions C06_listed_never_deleted.
 
 (* selected source entries survive the deletions of a successful run (the mirror's "superset" half is C01) *)
-Theorem C06_deletions_spare_selected : forall refuse c now U src dst,
+Theorem C06_deletions_spare_selected : forall refuse ds c now U src dst,
   src_wf src -> c_dry_run c = false -> dst [] = None ->
   (forall e, In e src -> se_is_dir e = true -> forall cc s t, dst (se_path e) <> Some (File cc s t)) ->
-  let r := run refuse c now U src dst in
+  (forall e, In e src -> se_is_dir e = false -> dst (se_path e) <> Some Dir) ->
+  let r := run refuse ds c now U src dst in
   r_refused r = false -> r_errors r = [] -> forall e, In e src -> r_fs r (se_path e) <> None.
 Proof.
-  intros refuse c now U src dst Hwf Hdry Hroot Hnf r Href Herr e He.
-  destruct (run_post refuse c now U src dst Hwf Hdry Hroot Hnf Href Herr e He) as (x & Hx & _). fold r in Hx. congruence.
+  intros refuse ds c now U src dst Hwf Hdry Hroot Hnf Hnd2 r Href Herr e He.
+  destruct (run_post refuse ds c now U src dst Hwf Hdry Hroot Hnf Hnd2 Href Herr e He) as (x & Hx & _). fold r in Hx. congruence.
 Qed.
 Print Assumptions C06_deletions_spare_selected.
 
-(* Known finding C06-KF1: removing a stale directory together with its contents is NOT free of spurious
-   errors -- the parent's remove_dir_all runs first, the child's remove_file then fails with ENOENT *)
-Theorem C06_stale_dir_spurious_error :
-  exists c U dst, r_errors (run (fun _ _ _ => false) c 1%Z U [] dst) = [([7%N; 8%N], ADelete, E_NoEnt)]
-               /\ (forall p, In p U -> r_fs (run (fun _ _ _ => false) c 1%Z U [] dst) p = None).
-Proof.
-  exists (mk_cfg true true 50 false false false false 100 100), [[7%N]; [7%N; 8%N]],
-         (fun p => if peqb p [7%N] then Some Dir else if peqb p [7%N; 8%N] then Some (File 1 1 1%Z) else None).
-  split; [vm_compute; reflexivity|]. intros p [<-|[<-|[]]]; vm_compute; reflexivity.
-Qed.
-Print Assumptions C06_stale_dir_spurious_error.
+(* With --delete (threshold not exceeded, or --force-delete) a successful unfiltered run leaves the set of
+   destination paths equal to the source's: exact mirror, for every pair of trees *)
+Theorem C06_mirror : forall refuse ds c now U src dst,
+  src_wf src -> c_dry_run c = false -> c_delete c = true -> dst [] = None ->
+  (forall e, In e src -> se_is_dir e = true -> forall cc s t, dst (se_path e) <> Some (File cc s t)) ->
+  (forall e, In e src -> se_is_dir e = false -> dst (se_path e) <> Some Dir) ->
+  let r := run refuse ds c now U src dst in
+  r_refused r = false -> r_errors r = [] ->
+  forall q, In q U -> (r_fs r q <> None <-> In q (paths_of src)).
+Proof. exact mirror. Qed.
+Print Assumptions C06_mirror.
+
+(* removing stale entries -- a stale directory together with its contents included -- never produces an
+   error, whatever the order of the delete tasks (repaired: `fix: deleting an entry that vanished ...`;
+   before it the children of a removed directory failed with ENOENT, C06-KF1) *)
+Theorem C06_deletions_never_fail : forall c now ds m,
+  c_dry_run c = false -> (forall t, In t ds -> t_action t = ADelete) ->
+  exists mf, exec_seq c now m ds = Some mf /\ forall q, (In q (map t_path ds) \/ m q = None) -> mf q = None.
+Proof. intros c now ds m Hdry Hall. apply dels_never_fail; assumption. Qed.
+Print Assumptions C06_deletions_never_fail.
+
+Example C06_stale_dir_no_error :
+  let c := mk_cfg true true 50 false false false false 100 100 in
+  let dst : fs := fun p => if peqb p [7%N] then Some Dir else if peqb p [7%N; 8%N] then Some (File 1 1 1%Z) else None in
+  let r := run (fun _ _ _ => false) (fun _ => (0%N, 0%Z)) c 1%Z [[7%N]; [7%N; 8%N]] [] dst in
+  r_errors r = [] /\ r_fs r [7%N] = None /\ r_fs r [7%N; 8%N] = None /\ r_events r = [(ADelete, [7%N]); (ADelete, [7%N; 8%N])].
+Proof. vm_compute. repeat split. Qed.
